@@ -10,7 +10,9 @@ def checkOne (g : Spec) (finite : Bool) (j : J) : J :=
     let valid := g.valid d
     .obj ([("norm", dnaToJ d), ("validate", .bool (g.validate d)), ("bind", .bool (g.bind d)),
            ("valid", .bool valid)] ++
-          (if finite && valid then [("next", nextToJ (g.next d))] else []))
+          (if finite then [("next", match g.next d with
+              | some (some d') => if g.bind d' then dnaToJ d' else .str "error"   -- `next_dna` binds its result
+              | r => nextToJ r)] else []))
 
 def handle (j : J) : J :=
   match j.getStr? "op" with
